@@ -98,3 +98,49 @@ impl Worlds {
         (v, recycle)
     }
 }
+
+/// A property that is decided by a set of E1 searches (plus optional extra in-process sweeps)
+pub struct DataProp {
+    pub id: &'static str,
+    pub specs: Vec<SpecRun>,
+    pub make_world: fn(&str) -> Option<Box<dyn World>>,
+    pub assumptions: Vec<String>,
+}
+
+pub fn data_parent(p: &DataProp, tier: &str, extra: Option<&dyn Fn(&Pool, &str, &mut RunReport) -> Value>) -> i32 {
+    let mut report = RunReport::new(p.id, tier, "model_checking");
+    let pool = Pool::new(p.id, tier, nworkers());
+    let all = run_specs(&pool, tier, &p.specs, &mut report);
+    let ex = match extra {
+        Some(f) => f(&pool, tier, &mut report),
+        None => json!({}),
+    };
+    merge_coverage(&mut report, &all, ex);
+    report.assumptions = p.assumptions.clone();
+    report.finish()
+}
+
+pub fn data_handle_factory(make_world: fn(&str) -> Option<Box<dyn World>>, extra: Option<fn(&str, &Value, &mut WorkerIo) -> Option<Value>>) -> impl FnMut(&str, &Value, &mut WorkerIo) -> (Value, bool) {
+    let mut worlds = Worlds::new(make_world);
+    move |tier: &str, task: &Value, io: &mut WorkerIo| {
+        if let Some(r) = task.get("replay") {
+            if r["kind"].as_str() == Some("e1") {
+                return (crate::props::e1common_replay(make_world, r), false);
+            }
+        }
+        if let Some(f) = extra {
+            if let Some(v) = f(tier, task, io) {
+                return (v, false);
+            }
+        }
+        worlds.handle(task, io)
+    }
+}
+
+pub fn std_assumptions() -> Vec<String> {
+    vec![
+        "reference semantics as written in /verif/SEMANTICS.md (Redis 7.x), replies compared in normal form (any error = any error, null array = empty array, unordered replies as multisets)".into(),
+        "bounded: all histories up to the completed depth over the listed alphabets; nothing is claimed beyond".into(),
+        "the virtual clock owns time; the event loop is released one iteration at a time; connection ids and skip-list levels are owned where they matter".into(),
+    ]
+}
